@@ -202,9 +202,18 @@ def r_sub(a, b):
     return _arith(a) - _arith(b)
 
 
+def _sqrt_arg(t):
+    if is_z3(t) and z3.is_app(t) and t.decl().name() == "sqrt" and t.num_args() == 1:
+        return t.arg(0)
+    return None
+
+
 def r_mul(a, b):
     if is_conc(a) and is_conc(b):
         return _num(a) * _num(b)
+    sa = _sqrt_arg(a)
+    if sa is not None and is_z3(b) and a.eq(b):
+        return sa          # sqrt(t)*sqrt(t) = t  (t >= 0 is a definedness obligation of the sqrt)
     if is_conc(a):
         if _num(a) == 0:
             return 0
